@@ -379,14 +379,19 @@ theorem runInv_fresh (t : Node) (hdir : t.isDir = true) (hn : noNested t = true)
 
 theorem storeExact_add (hs : Option HistStore) (gs : List Generation) (w : Written)
     (hex : (hs = none ∧ gs = []) ∨ hs = some { gens := gs, chain := chainFrom 1 gs, chainPresent := true })
-    (hnum : w.number = gs.length + 1) :
+    (hnum : w.number = gs.length + 1) (hfresh : w.gen.fileName ∉ gs.map (·.fileName)) :
     (hs.getD {}).add w = { gens := gs ++ [w.gen], chain := chainFrom 1 (gs ++ [w.gen]), chainPresent := true } := by
   have hc : chainFrom 1 (gs ++ [w.gen]) = chainFrom 1 gs ++ [⟨w.number, w.gen.fileName⟩] := by
     rw [chainFrom_append, hnum, Nat.add_comm]; rfl
   rw [hc]
   rcases hex with ⟨h1, h2⟩ | h1
   · subst h1; subst h2; rfl
-  · subst h1; rfl
+  · subst h1
+    show HistStore.mk (gs.filter (fun g => g.fileName != w.gen.fileName) ++ [w.gen]) _ true = _
+    rw [List.filter_eq_self.2 (fun g hg => by
+      simp only [bne_iff_ne, ne_eq]
+      intro h; exact hfresh (List.mem_map.2 ⟨g, hg, h⟩))]
+    rfl
 
 /-- one step keeps the invariant; the generations stay or get one more at the end -/
 theorem step_inv (env : Env) (hrn : '\n' ∉ env.rootName.toList) (t : Node) (n : Nat) (gs : List Generation)
@@ -404,14 +409,15 @@ theorem step_inv (env : Env) (hrn : '\n' ∉ env.rootName.toList) (t : Node) (n 
     rw [heq, this]; exact h.exact
   · right
     have hpre' := hpre (lastIgnore_nodup gs h.nodup)
-    refine ⟨w.gen, ⟨h1, h2, hg', nodupIgnores_append gs _ h.nodup hnd', ignoreMonotone_append gs _ h.mono hpre',
-      Or.inr ?_⟩, hname, ?_⟩
-    · rw [hhist, storeExact_add t.hist gs w h.exact (by rw [hnum, hlen])]
-    · -- the new name parses to n+1, every old name to its number ≤ n
+    -- the new name parses to n+1, every old name to its number ≤ n
+    have hfresh : w.gen.fileName ∉ gs.map (·.fileName) := by
       intro hmem
       have hnames := (goodHist_names (stepTree env t st) (n + 1) (gs ++ [w.gen]) hg').1
       rw [List.map_append, List.nodup_append] at hnames
       exact hnames.2.2 _ hmem w.gen.fileName (by simp) rfl
+    refine ⟨w.gen, ⟨h1, h2, hg', nodupIgnores_append gs _ h.nodup hnd', ignoreMonotone_append gs _ h.mono hpre',
+      Or.inr ?_⟩, hname, hfresh⟩
+    rw [hhist, storeExact_add t.hist gs w h.exact (by rw [hnum, hlen]) hfresh]
 
 
 /-! ### 2. the induction over runs -/
@@ -556,6 +562,69 @@ theorem run_numbers_contiguous (env : Env) (hrn : '\n' ∉ env.rootName.toList) 
       have hnames := (goodHist_names _ _ _ hg').1
       rw [List.map_append, List.nodup_append] at hnames
       exact hnames.2.2 _ hmem w.gen.fileName (by simp) rfl
+
+/-! ### the shape a run leaves, and a `create` killed between its two replaces -/
+
+/-- a store whose chain lists its manifests one by one is in the shape `C06.Listed`: names pairwise different (given),
+every manifest listed -/
+theorem listed_of_chainFrom (gs : List Generation) (k0 : Nat) (b : Bool) (hnd : (gs.map (·.fileName)).Nodup) :
+    C06.Listed { gens := gs, chain := chainFrom k0 gs, chainPresent := b } := by
+  refine ⟨hnd, ?_⟩
+  intro g hg
+  rw [C06.lists_iff]
+  have hm : g.fileName ∈ (chainFrom k0 gs).map (·.fileName) := by
+    rw [chainFrom_names]; exact List.mem_map.2 ⟨g, hg, rfl⟩
+  obtain ⟨e, he, hn⟩ := List.mem_map.1 hm
+  exact ⟨e, he, hn⟩
+
+/-- … and it lists nothing else -/
+theorem chainFrom_lists (gs : List Generation) (k0 : Nat) (b : Bool) (nm : String) :
+    ({ gens := gs, chain := chainFrom k0 gs, chainPresent := b } : HistStore).lists nm = true ↔
+      nm ∈ gs.map (·.fileName) := by
+  rw [C06.lists_iff, ← chainFrom_names k0 gs]
+  constructor
+  · rintro ⟨e, he, rfl⟩; exact List.mem_map.2 ⟨e, he, rfl⟩
+  · intro h
+    obtain ⟨e, he, hn⟩ := List.mem_map.1 h
+    exact ⟨e, he, hn⟩
+
+/-- THE STORE A RUN LEAVES IS `Listed` (the invariant under which `HistStore.add` and `loadGens` behave as before the
+repair of `load_from_path`: `C06.dropUnlisted_of_listed`, `C06.add_appends`), AND A KILLED `create` LEAVES NO TRACE IN
+THE HISTORY.  After any run from a folder without history that left at least one generation (`s` = the root's `ascmhl`
+folder), whatever admissible step comes next: the manifest `w` it writes has a name the chain does not list; if the
+step is killed after that manifest was moved into place and before the chain file was replaced, the folder — now
+holding `C06.withLeftover s w.gen` — loads as exactly the same history as before the step.  (What the re-run then
+does: `C06.interrupted_generation_absent`.  The very first `create` in a folder is different: there is no chain file
+yet and every command refuses with 32 until it is completed, `C15.first_create_window_manifest`.) -/
+theorem run_interrupted_absent (env : Env) (hrn : '\n' ∉ env.rootName.toList) (t : Node) (hdir : t.isDir = true)
+    (hn : noNested t = true) (hh : t.hist = none) (steps : List Step) (hok : ∀ st ∈ steps, st.Ok)
+    (s : HistStore) (hs : (run env t steps).hist = some s) :
+    C06.Listed s ∧
+    ∀ st : Step, st.Ok →
+      ∀ w ∈ (create { env with stamp := st.stamp } (st.edit (run env t steps)) st.opts).written,
+        s.lists w.gen.fileName = false ∧
+        loadGens (C06.withLeftover s w.gen) = loadGens s ∧
+        checkStore (some (C06.withLeftover s w.gen)) = checkStore (some s) ∧
+        ∀ nm cs, loadHistory (.dir nm cs (some (C06.withLeftover s w.gen))) = loadHistory (.dir nm cs (some s)) := by
+  obtain ⟨n, -, hi⟩ := run_inv env hrn t hdir hn hh steps hok
+  obtain ⟨_, n', -, -, -, -, -, -, -, -, -, hnext⟩ := run_numbers_contiguous env hrn t hdir hn hh steps hok
+  have hstored := storeExact_stored _ _ hi.exact
+  have hnd := (goodHist_names _ _ _ hi.good).1
+  generalize gensOf (run env t steps) = gs at hi hstored hnd
+  have hse : s = { gens := gs, chain := chainFrom 1 gs, chainPresent := true } := by
+    rcases hi.exact with ⟨h1, -⟩ | h1
+    · rw [h1] at hs; cases hs
+    · rw [h1] at hs; exact (Option.some.inj hs).symm
+  have hl : C06.Listed s := by rw [hse]; exact listed_of_chainFrom gs 1 true hnd
+  refine ⟨hl, ?_⟩
+  intro st hst w hw
+  obtain ⟨-, -, hfresh⟩ := hnext st hst w hw
+  rw [hstored] at hfresh
+  have hun : s.lists w.gen.fileName = false := by
+    rw [← Bool.not_eq_true, hse, chainFrom_lists]
+    exact hfresh
+  obtain ⟨h1, h2, -, h4, -⟩ := C06.interrupted_generation_absent s hl w hun
+  exact ⟨hun, h1, h2, h4⟩
 
 theorem ignoreMonotone_le (gs : List Generation) (h : IgnoreMonotone gs) :
     ∀ (d i : Nat) (hj : i + d < gs.length), gs[i].ignore <+: gs[i + d].ignore := by
